@@ -23,6 +23,9 @@ type GenOpts struct {
 	SpecialFloats bool
 	// Target is the aimed number of populated fields per message in automatic mode. Default 4.
 	Target int
+	// KnownEnumsOnly keeps enum fields to the numbers the schema names (by default proto3 enums now and then get a
+	// number without a name, which open enums allow).
+	KnownEnumsOnly bool
 	// Skip names fields (by full name) that must be left unset.
 	Skip map[protoreflect.FullName]bool
 	// Only, when non-nil, limits top level population to these field names.
@@ -178,6 +181,10 @@ func genScalar(t *rapid.T, l string, fd protoreflect.FieldDescriptor, o GenOpts)
 		return protoreflect.ValueOfBool(rapid.Bool().Draw(t, l))
 	case protoreflect.EnumKind:
 		vals := fd.Enum().Values()
+		if fd.ParentFile().Syntax() == protoreflect.Proto3 && !o.KnownEnumsOnly && rapid.IntRange(0, 9).Draw(t, l+"openEnum") == 0 {
+			// proto3 enums are open: a peer built against a newer schema sends numbers this one has no name for
+			return protoreflect.ValueOfEnum(protoreflect.EnumNumber(rapid.SampledFrom([]int32{100, -1, 99, 1000, int32(vals.Len())}).Draw(t, l+"num")))
+		}
 		return protoreflect.ValueOfEnum(vals.Get(rapid.IntRange(0, vals.Len()-1).Draw(t, l)).Number())
 	case protoreflect.Int32Kind, protoreflect.Sint32Kind, protoreflect.Sfixed32Kind:
 		return protoreflect.ValueOfInt32(rapid.OneOf(rapid.Int32Range(-3, 3), rapid.SampledFrom([]int32{math.MinInt32, math.MaxInt32, 100, -100})).Draw(t, l))
